@@ -163,7 +163,8 @@ def generate_composite_keys(
             if elements_for_composite_key:
                 for key in elements_for_composite_key:
                     if key in line:
-                        fullxpath = f"{prefix}/{key}"
+                        # the xpath n0dict.compare(..) will look the transform up with for this field
+                        fullxpath = f"{prefix}[{line_i}]/{key}"
                         transform_i = xpath_match(fullxpath, attributes_to_transform)
                         if transform_i:
                             key_fields[key] = transform[transform_i - 1][1](line[key])
